@@ -49,7 +49,14 @@ VARIES = (
     "another file system than the temp directory, link failures by power cycle, quiet periods of "
     "up to a day (the clock the middleware reads is jumped) followed by version requests, "
     "non-finite JSON numbers, other spellings of signatures, another device found after a "
-    "re-connection in the middle of a tool run, both heartbeat kinds on one manager")
+    "re-connection in the middle of a tool run, both heartbeat kinds on one manager, status words "
+    "and faults inside the bring-up of a reconnection, legacy (--version-one) mode in every "
+    "scenario, the manager and tools run as an unprivileged user, block operations cut short "
+    "before a sign, PINs with repeated characters, string values with their first or last "
+    "characters repeated, JSON members the formats do not define, certificates with unknown "
+    "signature algorithm identifiers, elements extended without re-signing, non-zero timestamps, "
+    "file names that read like data (64 hex digits, numbers), regenerated authorization files, "
+    "process-wide socket defaults, coinbase byte counts overflowing 64 bits")
 
 IDEAS = (
     "a code path only reached through a rarely used command-line option, environment variable or "
